@@ -100,4 +100,12 @@ TEXT["C15"] = {
     "note": _TB + "Partial: absence of panics/aborts inside external codecs on arbitrary bytes is explored (fuzzed), not proved (one open finding: pcodec allocation abort); a checksum placed before a compressor gives no single-byte guarantee for the stored bytes (open finding for fletcher32).",
     "technique": "Lean 4 proofs of checksum error detection and shard bounds + exhaustive single-byte/truncation corruption of stored values under catch_unwind",
 }
+TEXT["C03"] = {
+    "level": "Machine-checked proof for the codecs with a specified output: crc32c, fletcher32, bytes (either byte order), shuffle, transpose (inverse, element count, shape round trip, fill mapping) "
+             "invert their encoding and have exactly the declared size; ANY chain of lawful bytes-to-bytes codecs inverts and honours the composed bound; the sharding layout (either index location, "
+             "either index byte order, with/without index checksum) decodes to the encoded inner chunks, has length sum+index, respects the n*max+index bound and is a legal shard. The models are compared "
+             "BYTE FOR BYTE with the implementation's encodings; external compressors, packbits, pcodec and the vlen codecs are TESTED (round trip and declared size on adversarial payloads), labelled as tests.",
+    "note": _TB + "No theorem about flate2/zstd/blosc/bz2/gdeflate/pco is possible here: they are parameters whose laws are hypotheses; lossy codecs are not covered.",
+    "technique": "Lean 4 inverse/size proofs for modelled codecs and chain composition + byte-exact differential encoding + round-trip/size tests for external codecs",
+}
 NOT_YET = {}
